@@ -2,9 +2,11 @@
     wallet and the interleaving model.
 
     The harness reports, per scenario and per account branch, the requests
-    (site name, number of derivations its transaction registered, whether the
-    transaction committed), the observed order of transaction life-cycle
-    events (the schedule, as labels) and the (request, index) pairs obtained.
+    (site name, number of derivations its transaction made on the branch,
+    whether the transaction committed; for a recovery: the index it extends the
+    branch through), the observed order of transaction life-cycle events (the
+    schedule, as labels), the (request, index) pairs obtained, and what the
+    running wallet and a restarted one answer afterwards.
     The labels are coarser than model steps:
 
       LBegin t      BeginReadWriteTx returned for t   = [Lock (if the site holds the mutex); Begin]
@@ -15,33 +17,55 @@
     (taking and releasing newAddrMtx is not observable from the database
     proxy: the model takes it as late and releases it as early as the code
     allows, which accepts exactly the observable orders the mutex permits).
-    Whether a site holds the mutex is looked up in the table generated from the
-    source.  A label that is not enabled in the model (for instance a Begin of B
-    between Commit and Callbacks of A when both sites hold the mutex) makes the
-    replay fail: the implementation did something the model says is impossible. *)
+    Whether a site holds the mutex - exclusively, or only for reading - is
+    looked up in the table generated from the source.  A label that is not
+    enabled in the model (for instance a Begin of B between Commit and
+    Callbacks of A when both sites hold the mutex) makes the replay fail: the
+    implementation did something the model says is impossible. *)
 From Coq Require Import String.
 From Verif Require Import Base.Prelude Addr.Conc Generated.AddrSites.
 Local Open Scope N_scope.
 
 Inductive label := LBegin (t : nat) | LCommit (t : nat) | LRollback (t : nat) | LCallbacks (t : nat).
 
+Record cthread := {
+  ct_site : string;        (* name in the site table; "" = a request of the harness that takes no mutex *)
+  ct_n : N;                (* derivations on this branch *)
+  ct_commits : bool;
+  ct_ext : option N        (* Some T: recovery extending this branch through T *)
+}.
+
 Record ccase := {
   c_n0 : N;
   c_cached : bool;
-  c_threads : list (string * N * bool);   (* site name, derivations on this branch, commits *)
+  c_threads : list cthread;
   c_sched : list label;
   c_obs : list (nat * N);                 (* (request, index) obtained on this branch *)
   c_mem_after : N;                        (* key count the running wallet reports afterwards *)
   c_disk_after : N;                       (* key count a fresh open of a copy of the file reports *)
+  c_last_mem : option N;                  (* index of the branch's last address as the running wallet answers
+                                             (None: it says there is none yet) *)
+  c_cache : list N;                       (* indices >= n0 of this branch found in the address cache *)
   c_strict : bool                         (* scripted scenario (one request runs at a time) *)
 }.
 
-Fixpoint mk_threads (l : list (string * N * bool)) : option (list thread) :=
+Definition mk_thread (c : cthread) : option thread :=
+  if String.eqb (ct_site c) "" then
+    Some {| th_held := false; th_shared := false; th_n := ct_n c; th_ext := ct_ext c; th_commits := ct_commits c |}
+  else
+    match site_lookup (ct_site c) sites with
+    | Some st =>
+      Some {| th_held := held st || shared st; th_shared := negb (held st) && shared st;
+              th_n := ct_n c; th_ext := ct_ext c; th_commits := ct_commits c |}
+    | None => None
+    end.
+
+Fixpoint mk_threads (l : list cthread) : option (list thread) :=
   match l with
   | [] => Some []
-  | (name, n, c) :: l' =>
-    match site_held name sites, mk_threads l' with
-    | Some h, Some ths => Some ({| th_held := h; th_n := n; th_commits := c |} :: ths)
+  | c :: l' =>
+    match mk_thread c, mk_threads l' with
+    | Some th, Some ths => Some (th :: ths)
     | _, _ => None
     end
   end.
@@ -96,22 +120,35 @@ Definition count (p : nat * N) (l : list (nat * N)) : nat := length (filter (pai
 Definition multiset_eqb (a b : list (nat * N)) : bool :=
   Nat.eqb (length a) (length b) && forallb (fun p => Nat.eqb (count p a) (count p b)) (a ++ b).
 
+Definition excl (th : thread) : bool := th_held th && negb (th_shared th).
+
+(** the running wallet's answer for the last address of the branch *)
+Definition last_ok (s : state) (o : option N) : bool :=
+  match o with
+  | None => mem_view s =? 0
+  | Some i => negb (mem_view s =? 0) && (last_view s =? i)
+  end.
+
 (** the model, replayed on the observed schedule, hands out the same indices
-    to the same requests, every request ends, and the model's final in-memory
-    and on-disk next index are the key counts observed afterwards *)
+    to the same requests, every request ends, the model's final in-memory
+    and on-disk next index are the key counts observed afterwards, the last
+    address the running wallet reports is the model's, and the address cache
+    holds (on this branch, from n0 on) nothing the model does not put there *)
 Definition branch_ok (c : ccase) : bool :=
-  if c_strict c || forallb held sites then
-    match mk_threads (c_threads c) with
-    | Some ths =>
+  match mk_threads (c_threads c) with
+  | Some ths =>
+    if c_strict c || forallb excl ths then
       match replay ths (init ths (c_n0 c) (c_cached c)) (c_sched c) with
-      | Some s => terminated s && multiset_eqb (issued s) (c_obs c)
+      | Some s => terminated s && multiset_eqb (handed ths s) (c_obs c)
                   && N.eqb (mem_view s) (c_mem_after c) && N.eqb (disk s) (c_disk_after c)
+                  && last_ok s (c_last_mem c)
+                  && forallb (fun i => existsb (N.eqb i) (cache s)) (c_cache c)
       | None => false
       end
-    | None => false
-    end
-  else true.   (* unscripted run against a tree where some site lost the mutex:
-                  the observed event order does not determine the reads *)
+    else true   (* unscripted run in which some request does not hold the mutex exclusively:
+                   the observed event order does not determine the reads *)
+  | None => false
+  end.
 
 Definition case_ok (c : list ccase) : bool := forallb branch_ok c.
 
@@ -123,13 +160,14 @@ Fixpoint mismatches_from {A} (f : A -> bool) (i : nat) (l : list A) : list nat :
 
 Definition mismatches := mismatches_from case_ok 0.
 
-(** The model's own verdict on the observed schedule (diagnostics): indices
-    it hands out, [None] if the schedule is impossible in the model. *)
-Definition model_indices (c : ccase) : option (list (nat * N)) :=
+(** The model's own verdict on the observed schedule (diagnostics): what it
+    hands out, next index in memory / on disk, last address, cache;
+    [None] if the schedule is impossible in the model. *)
+Definition model_outcome (c : ccase) : option (list (nat * N) * N * N * N * list N) :=
   match mk_threads (c_threads c) with
   | Some ths =>
     match replay ths (init ths (c_n0 c) (c_cached c)) (c_sched c) with
-    | Some s => Some (issued s)
+    | Some s => Some (handed ths s, mem_view s, disk s, last_view s, cache s)
     | None => None
     end
   | None => None
